@@ -37,7 +37,7 @@ def harness_buf(cname, t, nmax, by_ref=True, base_arg=True, extra_args=''):
         body = ['void vp_h(void)', '{',
                 '  { uint64_t t; vp_in1 = t; } __CPROVER_assume(vp_in1 <= %d);' % nmax,
                 '  { %s t; vp_in2 = t; }' % ct,
-                '  { uint64_t t; vp_k = t; } __CPROVER_assume(vp_k < vp_in1);',
+                '  { uint64_t t; vp_k = t; } __CPROVER_assume(vp_k < %d);' % (nmax + 1),       # ghost index: NOT tied to the length (an assume vp_k < n silently excluded the empty buffer: seed C13_2)
                 '  /*PRE*/',
                 '  uint8_t* first = vp_buf;',
                 '  uint8_t* last = vp_buf + vp_in1;',
